@@ -101,8 +101,11 @@ def ref_gamma_ensemble(reps, S=2.0, tau_exp=0.0, N_sigma=1.0):
         for n in range(1, wmax):
             x = ntc[n]
             tw = S / math.log((2 * x + 1) / (2 * x - 1))
-            g = math.exp(-n / tw) - tw / math.sqrt(n * N)
-            margins.append(g)
+            e1, e2 = math.exp(-n / tw), tw / math.sqrt(n * N)
+            g = e1 - e2
+            # decision margin relative to the larger of the two terms when both are small (tiny S: e1 underflows, e2 ~ S;
+            # the sign is exact although |g| is tiny), absolute otherwise
+            margins.append(g / min(1.0, max(e1, e2, 1e-300)))
             if abs(nt[n] - 0.5) < 1e-10:
                 # tau_int(n) sits on the clipping threshold: the sign of g must not depend on which side
                 for xa in (0.5 + np.finfo(float).eps, 0.5 + 2e-10):
